@@ -116,32 +116,42 @@ PNum(P) == IF P.k # "fin" THEN [k |-> P.k, neg |-> P.neg, m |-> << >>, e |-> 0, 
            ELSE IF IsZero(P.m) THEN Fin(0, Zero, 0)
            ELSE [k |-> "fin", neg |-> P.neg, m |-> P.m, e |-> P.e, d |-> P.d]
 
+(* the scale 5^|d| of a printed numeral is computed once per judgement and   *)
+(* applied to the shorter operand                                            *)
+MulAny(a, b) == IF Len(a) < Len(b) THEN Mul(b, a) ELSE Mul(a, b)
+Pow5Of(P)    == MulPow5(One, IF P.d < 0 THEN 0 - P.d ELSE P.d)
+
+(* compare  mm * 2^P.e * 10^P.d  with the magnitude of the dyadic y: -1, 0, 1 *)
+UCmp(P, p5, mm, y) ==
+  IF IsZero(mm) \/ IsZero(y.m) THEN (IF IsZero(mm) /\ IsZero(y.m) THEN 0 ELSE IF IsZero(mm) THEN -1 ELSE 1)
+  ELSE LET far == FarCmp([k |-> "fin", neg |-> 0, m |-> mm, e |-> P.e, d |-> P.d], y) IN
+       IF far # 0 THEN far
+       ELSE IF P.d >= 0 THEN MagCmp(Fin(0, MulAny(p5, mm), P.e + P.d), Abs(y))
+       ELSE MagCmp(Fin(0, mm, P.e + P.d), Fin(0, MulAny(p5, y.m), y.e))
+
 (* |v| lies strictly between (m - 1) and (m + 1) units of the last printed place *)
-WithinPrinted(v, P) ==
-  LET U(mm) == [k |-> "fin", neg |-> 0, m |-> mm, e |-> P.e, d |-> P.d]
-      av    == Abs(v)
-  IN IF IsZero(P.m) THEN MagCmp(av, U(One)) < 0
-     ELSE /\ ~IsZero(v.m) /\ v.neg = P.neg
-          /\ MagCmp(U(Sub(P.m, One)), av) < 0
-          /\ MagCmp(av, U(Add(P.m, One))) < 0
+WithinPrinted(v, P, p5) ==
+  IF IsZero(P.m) THEN UCmp(P, p5, One, v) > 0
+  ELSE /\ ~IsZero(v.m) /\ v.neg = P.neg
+       /\ UCmp(P, p5, Sub(P.m, One), v) < 0
+       /\ UCmp(P, p5, Add(P.m, One), v) > 0
 
 (* decimal digits after which print -> parse is the identity: 10^(n-1) > 2^p *)
 RTDigits(T) == CHOOSE n \in 1..40 : /\ Cmp(MulPow10(One, n - 1), Pow2(T.p)) > 0
                                      /\ (n = 1 \/ Cmp(MulPow10(One, n - 2), Pow2(T.p)) <= 0)
 
-(* x lies strictly inside the rounding interval of v (v # 0 in format T):   *)
-(* every conversion to T that rounds to nearest yields v                    *)
-RoundsTo(T, v, x) ==
+(* the printed numeral P lies strictly inside the rounding interval of v    *)
+(* (v # 0 in format T): every conversion to T that rounds to nearest yields v *)
+RoundsTo(T, v, P, p5) ==
   LET av   == Abs(v)
       q    == Quantum(T, av)
       pow2 == TrailZeros(av.m) = BitLen(av.m) - 1
       qlo  == IF pow2 /\ q > QMin(T) THEN q - 2 ELSE q - 1
       hi   == StepMag(av, q - 1, TRUE)
       lo   == StepMag(av, qlo, FALSE)
-      ax   == Abs(x)
-  IN /\ x.k = "fin" /\ ~IsZero(x.m) /\ x.neg = v.neg
-     /\ MagCmp(lo, ax) < 0
-     /\ MagCmp(ax, hi) < 0
+  IN /\ P.k = "fin" /\ ~IsZero(P.m) /\ P.neg = v.neg
+     /\ UCmp(P, p5, P.m, lo) > 0
+     /\ UCmp(P, p5, P.m, hi) < 0
 
 SameNum(a, b) == \/ a.k = "nan" /\ b.k = "nan"
                  \/ a.k = "inf" /\ b.k = "inf" /\ a.neg = b.neg
@@ -161,12 +171,15 @@ TextDenotes(t, v, radix, body, pr, pw) ==
        IN CASE v.k = "nan" -> P.k = "nan" /\ (pr = "ok" => pw.k = "nan")
             [] v.k = "inf" -> P.k = "inf" /\ P.neg = v.neg /\ (pr = "ok" => SameNum(pw, v))
             [] OTHER ->
-                 LET rt == ~P.hex /\ P.nd >= RTDigits(T) IN
+                 LET rt == ~P.hex /\ P.nd >= RTDigits(T)
+                     p5 == Pow5Of(P)
+                     eq == (IsZero(P.m) /\ IsZero(v.m)) \/ (~IsZero(P.m) /\ P.neg = v.neg /\ UCmp(P, p5, P.m, v) = 0)
+                 IN
                  /\ P.k = "fin"
-                 /\ WithinPrinted(v, P)
-                 /\ ((rt /\ ~IsZero(v.m)) => RoundsTo(T, v, x))
-                 /\ (pr = "ok" => /\ Same(t, x, pw)
-                                  /\ ((rt \/ NumCmp(x, v) = 0) => SameNum(pw, v)))
+                 /\ WithinPrinted(v, P, p5)
+                 /\ ((rt /\ ~IsZero(v.m)) => RoundsTo(T, v, P, p5))
+                 /\ (pr = "ok" => /\ ((rt \/ eq) => SameNum(pw, v))
+                                  /\ (~(rt \/ eq) => Same(t, x, pw)))
 
 (* judgement of one observed print: o = [r, text, ov, pr, pw]              *)
 (*   ov = a byte outside the space handed to the printer was changed       *)
